@@ -177,7 +177,16 @@ def ch_periods(ctx) -> Channel:
                 for _ in range(ctx.scale(2, 3)):
                     now = c12_lib.gen_clock(rng)
                     q, kind = c12_lib.gen_live_query(rng, now, defn.total_us())
-                    q.append(f"depth={c12_lib.depth_for(rng, defn)}")
+                    depth = c12_lib.depth_for(rng, defn)
+                    if rng.random() < .2:
+                        # firstAvailableTime an exact multiple of the total duration: the float
+                        # floor-division of the loop count is at its rounding edge (0.3 // 0.1 = 2)
+                        ast = c12_lib.gen_clock(rng).replace(microsecond=0)
+                        m = rng.choice([1, 2, 3, 7, rng.randrange(1, 10 ** 4), rng.randrange(1, 10 ** 7)])
+                        now = ast + datetime.timedelta(microseconds=m * defn.total_us() + rng.choice([0, 0, 1, -1]),
+                                                       seconds=depth)
+                        q = ["start=" + ast.strftime("%Y-%m-%dT%H:%M:%SZ")]
+                    q.append(f"depth={depth}")
                     runs.append(("live", q, now))
                 for mode, q, now in runs:
                     line, impl, fail, b, url = periods_case(app, client, clock, cap, c12_lib, defn, mode, q, now)
@@ -194,6 +203,16 @@ def ch_periods(ctx) -> Channel:
     for (rec, impl, fail, b), mo, line in zip(recs, model, lines):
         ch.evaluations += 1
         n = len(b.periods or [])
+        if mo is not None and rec["mode"] == "live" and mo.startswith("ok "):
+            # `ok <nl> <periods>`: nl is the float loop count the driver computed (a model parameter)
+            _, nl, rest = mo.split(" ", 2)
+            mo = "ok " + rest
+            D = sum(p["duration_us"] for p in rec["defn"]["periods"])
+            F = b.E_us - b.tsbd_s * 10 ** 6
+            ch.count("loop-count:float==exact-floor" if int(nl) == F // D else
+                     "loop-count:float==exact-floor-1" if int(nl) == F // D - 1 else "loop-count:other")
+            if int(nl) * D > F:
+                ch.count("loop-count:HYPOTHESIS nl*D<=F VIOLATED")
         ch.count(f"{rec['mode']}:periods={'1' if n == 1 else '2-4' if n <= 4 else '5-20' if n <= 20 else '>20'}")
         if rec["mode"] == "live" and b.E_us is not None:
             loops = (b.E_us - b.tsbd_s * 10 ** 6) // max(1, sum(p["duration_us"] for p in rec["defn"]["periods"]))
@@ -420,7 +439,7 @@ def ch_offsets(ctx) -> Channel:
                 # Layer C (inside the hypothesis: the offset is nearer a stored start than the end)
                 starts_tick = start_us * t.ts
                 last_half = (sum(t.durs[:-1]) + t.durs[-1] // 2) * 1_000_000
-                if starts_tick + 2 * 1_000_000 * (1 + -(-t.ts // t.ref_ts)) <= last_half and \
+                if starts_tick + 2 * 1_000_000 * (2 + -(-t.ts // t.ref_ts)) <= last_half and \
                         start_us * t.ref_ts < t.ref_dur * 1_000_000:
                     fail = oracle_period_media(c12_lib, t, start_us, t.sn, ks, None,
                                                f"{stream}/{t.name} offset {start_us}us")
